@@ -21,3 +21,17 @@ package keeper
 //@   ensures [C14] #c14-breaker-of-vault-app: result == nil && gone ==> !old(K("esm").GetKillSwitchData(ctx, v0.AppId).0.BreakerEnable) && !old(K("esm").GetESMStatus(ctx, v0.AppId).1 && K("esm").GetESMStatus(ctx, v0.AppId).0.Status)
 //@   ensures [C09] #c09-only-unsafe: result == nil && gone ==> old(K("vault").CalculateCollateralizationRatio(ctx, v0.ExtendedPairVaultID, v0.AmountIn, v0.AmountOut + v0.InterestAccumulated + v0.ClosingFeeAccumulated).1 == nil && K("vault").CalculateCollateralizationRatio(ctx, v0.ExtendedPairVaultID, v0.AmountIn, v0.AmountOut + v0.InterestAccumulated + v0.ClosingFeeAccumulated).0 < ep.MinCr)
 //@   cover #seizure-reachable: result == nil && gone
+
+// Manual liquidation message of the first-generation module (C14, C09): refused while the circuit breaker or the emergency
+// shutdown of the VAULT's own app is on (whatever app id the message names), and a vault is only ever seized when its
+// ratio, at the oracle price in force, is below the product's minimum.
+//@ func (k msgServer) MsgLiquidateVault
+//@   property C14, C09
+//@   prune
+//@   let v0 = k.vault.GetVault(ctx, msg.VaultId).0
+//@   let vf0 = k.vault.GetVault(ctx, msg.VaultId).1
+//@   requires #vault-keyed: vf0 ==> v0.Id == msg.VaultId
+//@   requires #app-keyed: k.GetAppIDByAppForLiquidation(ctx, msg.AppId).1 ==> k.GetAppIDByAppForLiquidation(ctx, msg.AppId).0 == msg.AppId
+//@   fails_if [C14] #c14-breaker-of-the-vaults-app: vf0 && k.esm.GetKillSwitchData(ctx, v0.AppId).0.BreakerEnable
+//@   fails_if [C14] #c14-esm-of-the-vaults-app: vf0 && k.esm.GetESMStatus(ctx, v0.AppId).1 && k.esm.GetESMStatus(ctx, v0.AppId).0.Status
+//@   ensures [C09] #c09-only-unsafe-vaults-are-seized: ok && vf0 && !k.vault.GetVault(ctx, msg.VaultId).1 ==> old(k.vault.CalculateCollateralizationRatio(ctx, v0.ExtendedPairVaultID, v0.AmountIn, v0.AmountOut + v0.InterestAccumulated + v0.ClosingFeeAccumulated).1 == nil && k.vault.CalculateCollateralizationRatio(ctx, v0.ExtendedPairVaultID, v0.AmountIn, v0.AmountOut + v0.InterestAccumulated + v0.ClosingFeeAccumulated).0 < k.asset.GetPairsVault(ctx, v0.ExtendedPairVaultID).0.MinCr)
